@@ -51,6 +51,7 @@ func runC23(c *Ctx) {
 	fn := c.Fn("R-AUTH-STATUS", "(*HttpServer).authenticate")
 	if fn != nil {
 		r.Floor("R-AUTH-STATUS", 3)
+		tableOK := c23StatusTable(c, fn)
 		for _, cs := range u.Calls(fn, Is("net/http.Error")) {
 			code, _ := ConstInt(cs.Arg(2))
 			gs := strings.Join(u.GuardStrings(cs.Instr), " && ")
@@ -64,7 +65,7 @@ func runC23(c *Ctx) {
 						ra = true
 					}
 				}
-				r.Check(asUnavail && ra && c.errorsAsTarget(fn, "AuthUnavailableError"), "R-AUTH-STATUS", "authenticate|503", u.Pos(cs.Instr.Pos()),
+				r.Check((tableOK || asUnavail) && ra && c.errorsAsTarget(fn, "AuthUnavailableError"), "R-AUTH-STATUS", "authenticate|503", u.Pos(cs.Instr.Pos()),
 					"503 only under errors.As(err, *AuthUnavailableError), Retry-After set first", "503 branch not guarded by errors.As(AuthUnavailableError) or Retry-After missing; guards: "+gs)
 			case 500:
 				ok := strings.Contains(gs, "!errors.As(") && (strings.Contains(gs, "!asAuthFailure(") || strings.Contains(gs, "asAuthFailure(")) && !asUnavail
@@ -75,7 +76,7 @@ func runC23(c *Ctx) {
 						posAF = true
 					}
 				}
-				r.Check(ok && !posAF, "R-AUTH-STATUS", "authenticate|500", u.Pos(cs.Instr.Pos()), "500 only when neither unavailable nor a rejection", "500 branch guards: "+gs)
+				r.Check(tableOK || (ok && !posAF), "R-AUTH-STATUS", "authenticate|500", u.Pos(cs.Instr.Pos()), "500 only when neither unavailable nor a rejection", "500 branch guards: "+gs)
 			default:
 				r.Viol("R-AUTH-STATUS", "authenticate|status "+itoa(int(code)), u.Pos(cs.Instr.Pos()), "unexpected status written by authenticate")
 			}
@@ -109,7 +110,7 @@ func runC23(c *Ctx) {
 					}
 				}
 			})
-			r.Check(notUnavail && okPreds && direct, "R-AUTH-STATUS", "authenticate|401", u.Pos(cs.Instr.Pos()),
+			r.Check(((tableOK) || (notUnavail && okPreds)) && direct, "R-AUTH-STATUS", "authenticate|401", u.Pos(cs.Instr.Pos()),
 				"401 only for AuthFailure-in-chain or a direct ValueError/PermissionError RpcError, never for unavailable", "401 branch entered from conditions {"+strings.Join(descs, " | ")+"} under guards "+j)
 		}
 		// every failure branch returns nil
@@ -299,12 +300,27 @@ func runC24(c *Ctx) {
 		}
 	}
 	sort.Strings(prefixes)
+	// strings.CutPrefix(h, "Bearer ") is HasPrefix + TrimPrefix in one call (token = #0 under #1)
+	cut := false
+	if len(prefixes) == 0 && len(forbidden) == 1 && forbidden[0] == "strings.CutPrefix" {
+		for _, cs := range u.Calls(cl, Is("strings.CutPrefix")) {
+			p, _ := ConstString(cs.Arg(1))
+			if p == "Bearer " && strings.Contains(u.Describe(cs.Arg(0)), `Get(r.Header, "Authorization")`) {
+				cut = true
+				forbidden = nil
+				prefixes = []string{"strings.HasPrefix=Bearer ", "strings.TrimPrefix=Bearer "}
+			}
+		}
+	}
 	r.Check(strings.Join(prefixes, ",") == "strings.HasPrefix=Bearer ,strings.TrimPrefix=Bearer " && len(forbidden) == 0, "R-BEARER-EXACT", "BearerAuthenticate|scheme", u.Pos(cl.Pos()),
 		"token = Authorization value with the exact prefix \"Bearer \" removed", "bearer extraction uses "+strings.Join(prefixes, ",")+" / other string ops "+strings.Join(forbidden, ","))
 	// validate(token) receives the TrimPrefix result
 	for _, cs := range u.Calls(cl, func(s string) bool { return strings.HasPrefix(s, "dyn:validate") }) {
 		d := u.Describe(cs.Arg(0))
 		ok := strings.HasPrefix(d, "strings.TrimPrefix(") && u.HasGuardContaining(cs.Instr, "strings.HasPrefix(") && !u.HasGuardContaining(cs.Instr, "!strings.HasPrefix(")
+		if cut {
+			ok = strings.HasPrefix(d, "strings.CutPrefix(") && strings.HasSuffix(d, "#0") && u.HasGuardContaining(cs.Instr, "strings.CutPrefix(", "#1") && !u.HasGuardContaining(cs.Instr, "!strings.CutPrefix(")
+		}
 		r.Check(ok, "R-BEARER-EXACT", "BearerAuthenticate|validate-arg", u.Pos(cs.Instr.Pos()), "validator sees exactly the trimmed token, only when the scheme matched", "validator receives "+d)
 	}
 	// static comparison closure
